@@ -38,22 +38,23 @@ type shadowFile struct {
 
 // Disk tracks all files of one instance's data directory.
 type Disk struct {
-	Dir    string
-	Inst   int
-	files  map[string]*shadowFile // by rel path
-	sim    *Sim
-	opps   int // crash/fault opportunities seen since arming
-	ArmAt  int // fire at this opportunity index (since arming); -1 = disarmed
-	Mode   string // kill | power | eio | enospc | short
-	Fired  bool
-	FiredAt string
-	Image  string // directory holding the post-crash image
-	dice   *Dice
-	OnOpp  func(site string)
-	Sites  []string // sites seen (for reach statistics)
-	only   string   // if set, only opportunities whose site has this prefix count
+	Dir        string
+	Inst       int
+	files      map[string]*shadowFile // by rel path
+	sim        *Sim
+	opps       int    // crash/fault opportunities seen since arming
+	ArmAt      int    // fire at this opportunity index (since arming); -1 = disarmed
+	Mode       string // kill | power | eio | enospc | short
+	Fired      bool
+	FiredAt    string
+	Image      string // directory holding the post-crash image
+	dice       *Dice
+	OnOpp      func(site string)
+	Sites      []string // sites seen (for reach statistics)
+	only       string   // if set, only opportunities whose site has this prefix count
 	extraPower func(img string)
-	dirs   map[string]bool // directories created through FSEvent (rel paths), pending durability
+	dirs       map[string]bool // directories created through FSEvent (rel paths), pending durability
+	open       []*simFile
 }
 
 func (s *Sim) NewDisk(dir string, inst int, dice *Dice) *Disk {
@@ -151,6 +152,7 @@ func (d *Disk) crash() {
 		copyTree(d.Dir, img)
 	}
 	d.Image = img
+	d.CloseAll()
 	d.sim.mu.Lock()
 	d.sim.deadInst[d.Inst] = true
 	d.sim.rewriting[d.Inst] = false
@@ -334,7 +336,17 @@ func (d *Disk) Wrap(path string, f verifhook.File) verifhook.File {
 		appendMode = true
 	}
 	sf := d.shadow(path, appendMode)
-	return &simFile{f: f, sf: sf, d: d, name: name}
+	w := &simFile{f: f, sf: sf, d: d, name: name}
+	d.open = append(d.open, w)
+	return w
+}
+
+// CloseAll closes the descriptors a dead instance left open (the real process would be gone).
+func (d *Disk) CloseAll() {
+	for _, w := range d.open {
+		_ = w.f.Close()
+	}
+	d.open = nil
 }
 
 func (w *simFile) Read(p []byte) (int, error) { return w.f.Read(p) }
